@@ -20,6 +20,9 @@ def run(rep, tier, build, replay=None):
 
     def tweak(rng_, u):
         u['interleave'] = True
+        if rng_.random() < 0.15:
+            u['resources'], u['configs'] = dbfam.crafted_inferred_chain(rng_)
+            return
         for c in u['configs']:
             if rng_.random() < 0.5:
                 c['expand'] = ''
